@@ -477,9 +477,13 @@ func genCase(t *rapid.T, maxDecls, nreqs int, full bool) Case {
 		for _, d := range c.Decls {
 			req.Sent = append(req.Sent, genSent(t, d, full))
 		}
+		if req.Multipart && rapid.IntRange(0, 5).Draw(t, "multipart-body-cut") == 0 {
+			req.CutTail = rapid.IntRange(1, 8).Draw(t, "cut-bytes")
+		}
 		c.Reqs = append(c.Reqs, req)
 	}
 	c.LateFormat = rapid.Bool().Draw(t, "format-registered-late")
+	c.ReuseTarget = !full && nreqs > 1 && rapid.Bool().Draw(t, "struct-target-reused")
 	return c
 }
 
